@@ -1,18 +1,22 @@
 """C20 - the C interface (DESIGN.md 4, C20), decided on lib/amgcl.cpp.
 
+Every C API function is evaluated symbolically: locals are replaced by their initialisers and calls of helpers
+defined in lib/amgcl.cpp (also templates, functors, lambdas) are inlined, so the rules see *what is handed to the
+C++ objects*, however the file is organised:
+
 A  handle typestate: in each function family (amgcl_params_* / amgcl_precond_* / amgcl_solver_*) every
    static_cast of a handle, every `new` and every `delete` uses the family's C++ type; `prm` is always Params
-B  1-based siblings: X_f equals X except that exactly ptr and col are wrapped in a transform iterator
-   i -> i - 1; val, rhs, x, n are untouched; amgcl_solver_solve_f delegates to amgcl_solver_solve
-C  the C++ types are those of the run-time interface, parameters are passed on unchanged
+B  1-based siblings: X_f hands the C++ object the same terms as X except that exactly the row-pointer and the column
+   arrays are wrapped in a transform iterator i -> i - 1; val, rhs, x, n are untouched
+C  the C++ types are those of the run-time interface, parameters are passed on unchanged, and each entry point
+   forwards to the C++ member it stands for (apply -> amg::apply, solve -> make_solver::operator()) exactly once,
+   on ranges [p, p + n) over the caller's arrays with n the size of the object
 """
-import json
 import os
 import re
 
 import ir
-from ir import walk, unwrap, show
-import c02
+from ir import walk, show
 from framework import Check
 
 FAMILIES = {'amgcl_params_': 'Params', 'amgcl_precond_': 'AMG', 'amgcl_solver_': 'Solver'}
@@ -23,6 +27,13 @@ EXPECT = {
                          r'amgcl::runtime::solver::wrapper<amgcl::backend::builtin<double(, long, long)?>(, amgcl::solver::detail::default_inner_product)?>>$'),
 }
 PAIRS = [('amgcl_precond_create', 'amgcl_precond_create_f'), ('amgcl_solver_create', 'amgcl_solver_create_f'), ('amgcl_solver_solve_mtx', 'amgcl_solver_solve_mtx_f')]
+# entry point -> (C++ member it stands for, class of the object)
+FORWARD = {
+    'amgcl_precond_apply': ('apply', 'AMG', False),
+    'amgcl_solver_solve': ('operator()', 'Solver', False),
+    'amgcl_solver_solve_mtx': ('operator()', 'Solver', True),
+    'amgcl_solver_solve_mtx_f': ('operator()', 'Solver', True),
+}
 
 
 def capi(u):
@@ -30,250 +41,526 @@ def capi(u):
 
 
 def kind_of(u, t):
-    t = t.replace(' *', '').replace('*', '').strip()
+    t = t.replace(' *', '').replace('*', '').replace('const ', '').strip()
     for k, rx in EXPECT.items():
         if rx.match(t):
             return k
     return None
 
 
-def rule_A(ck, u, fs):
-    ck.rule('A.handle-typestate', 'every cast of a handle, every new and every delete in a C API function uses the C++ type of the function\'s family; prm is always cast to Params', 17)
+# ------------------------------------------------------------------ symbolic evaluation with inlining
+class Ev:
+    """terms:
+       ('param', name) ('lit', v) ('var', name) ('+', base, sorted other summands...) ('idx', base, index)
+       ('shift1', t) transform iterator i -> i - 1 over t; ('xform', t) any other transform iterator
+       ('range', b, e) ('tuple', ...) ('new', kind-or-type, args...) ('cast', kind-or-type, t) ('deref', t)
+       ('mcall', member, class, obj, args...) ('call', name, args...) ('ite', cond, a, b) ('assign', lhs, rhs) ('mem', name, obj)
+       ('delete', t) ('unknown', text)"""
+
+    def __init__(self, u, fs):
+        self.u = u
+        self.fs = fs
+        self.file = next(iter(fs.values())).file if fs else None
+        self.events = []     # (kind, type kind/name, operand term, where)
+
+    def strip(self, e):
+        while e is not None:
+            k = e['k']
+            if k in ('defarg', 'definit'):
+                e = e['e']
+            elif k == 'call' and e.get('conv'):
+                e = e['obj']
+            elif k == 'cast' and e.get('ck') != 'static':
+                e = e['e']
+            elif k == 'ctor' and len(e.get('a', [])) == 1 and not e.get('f', '').split('::')[-1]:
+                e = e['a'][0]
+            else:
+                break
+        return e
+
+    def minus_one(self, fn, depth=0):
+        """is fn a callable i -> i - 1 (lambda, functor object, function)?"""
+        fn = self.strip(fn)
+        if fn is None or depth > 3:
+            return False
+        body = None
+        if fn['k'] == 'lambda':
+            body = fn['b']
+        else:
+            # functor temporary / object: find operator() of its class; function reference: its body
+            g = None
+            if fn['k'] in ('ctor', 'tmp', 'zeroinit', 'call') and ('ct' in fn or 't' in fn):
+                tname = self.u.type(fn.get('ct', fn.get('t'))).replace('const ', '').strip()
+                for h in self.u.funcs:
+                    if h.cls and (h.cls == tname or tname.endswith('::' + h.cls.split('::')[-1]) or h.cls.endswith(tname)) and h.q.endswith('::operator()'):
+                        g = h
+            elif fn['k'] == 'ref':
+                g = next((h for h in self.u.funcs if h.id == fn.get('d') or h.q == fn.get('n')), None)
+            if g is not None:
+                body = g.body
+        if body is None:
+            return False
+        rets = [r for r in walk(body) if r['k'] == 'ret' and r.get('e') is not None]
+        if len(rets) != 1:
+            return False
+        e = self.strip(rets[0]['e'])
+        return (e is not None and e['k'] == 'bin' and e['op'] == '-' and self.strip(e['x'])['k'] == 'ref'
+                and self.strip(e['y'])['k'] == 'lit' and self.strip(e['y']).get('v') == '1')
+
+    def add(self, a, b):
+        items = []
+        for t in (a, b):
+            if t[0] == '+':
+                items.extend(t[1:])
+            else:
+                items.append(t)
+        return ('+', items[0]) + tuple(sorted(items[1:], key=repr))
+
+    def term(self, f, e, env, eff, depth=0):
+        e = self.strip(e)
+        if e is None:
+            return ('unknown', 'null')
+        k = e['k']
+        T = lambda x: self.term(f, x, env, eff, depth)
+        if k == 'ref':
+            d = e['d']
+            if d in env:
+                return env[d]
+            pi = f.param_index(d)
+            if pi is not None:
+                return ('param', f.decl(d)['n'])
+            return ('var', e['n'])
+        if k == 'lit':
+            return ('lit', e.get('v'))
+        if k == 'this':
+            return ('this',)
+        if k == 'cast':       # explicit static_cast
+            t = self.u.type(e['ct']) if 'ct' in e else self.u.type(e.get('t'))
+            inner = T(e['e'])
+            if t.startswith('void'):
+                return inner
+            kd = kind_of(self.u, t) or t
+            if t.rstrip().endswith('*'):
+                self.events.append(('cast', kd, inner, f.where(e)))
+                return ('cast', kd, inner)
+            return inner     # arithmetic conversions
+        if k == 'new':
+            t = self.u.type(e['ct']) if 'ct' in e else '?'
+            kd = kind_of(self.u, t) or t
+            init = e.get('init')
+            args = ()
+            if init is not None:
+                ii = init
+                if ii['k'] == 'ctor' or ii.get('a') is not None:
+                    args = tuple(T(a) for a in ii.get('a', []) if a is not None and a.get('k') != 'defarg')
+                else:
+                    args = (T(ii),)
+            self.events.append(('new', kd, None, f.where(e)))
+            return ('new', kd) + args
+        if k == 'delete':
+            t = self.u.type(e['ct']) if 'ct' in e else '?'
+            kd = kind_of(self.u, t) or t
+            op = T(e['e'])
+            self.events.append(('delete', kd, op, f.where(e)))
+            return ('delete', op)
+        if k == 'un':
+            if e['op'] == '*':
+                return ('deref', T(e['e']))
+            if e['op'] == '&':
+                x = T(e['e'])
+                return x[1] if x[0] == 'deref' else ('addr', x)
+            return ('un', e['op'], T(e['e']))
+        if k == 'idx':
+            return ('idx', T(e['b']), T(e['x']))
+        if k == 'mem':
+            b = T(e['b']) if e.get('b') is not None else ('this',)
+            if e.get('arrow') and b[0] != 'deref':
+                b = ('deref', b)
+            return ('mem', e['n'], b)
+        if k == 'bin':
+            if e['op'] == '+':
+                return self.add(T(e['x']), T(e['y']))
+            if e['op'] == '=':
+                return ('assign', T(e['x']), T(e['y']))
+            return ('bin', e['op'], T(e['x']), T(e['y']))
+        if k == 'cond':
+            return ('ite', T(e['c']), T(e['x']), T(e['y']))
+        if k == 'lambda':
+            return ('lambda', 'minus1' if self.minus_one(e) else '?')
+        if k in ('ctor', 'tmp'):
+            args = [a for a in e.get('a', []) if a is not None and a.get('k') != 'defarg']
+            if len(args) == 1:
+                return T(args[0])       # conversion of a single value (ptree -> params, const char* -> path): transparent
+            return ('ctor', self.u.type(e.get('ct', e.get('t')))[:60]) + tuple(T(a) for a in args)
+        if k == 'call':
+            name = (e.get('f') or '')
+            short = name.split('::')[-1]
+            args = [a for a in e.get('a', []) if a is not None and a.get('k') != 'defarg']
+            if short == 'make_transform_iterator' and len(args) == 2:
+                base = T(args[0])
+                return ('shift1', base) if self.minus_one(args[1]) else ('xform', base)
+            if short == 'make_iterator_range' and len(args) == 2:
+                return ('range', T(args[0]), T(args[1]))
+            if short == 'make_tuple':
+                return ('tuple',) + tuple(T(a) for a in args)
+            if short == 'data' and e.get('obj') is not None and not args:
+                return ('data', T(e['obj']))
+            g = self.u.by_id.get(e.get('fd')) if 'fd' in e else None
+            if g is not None and g.body is not None and g.file == self.file and depth < 6 and e.get('obj') is None:
+                # inline a helper (or another entry point) of lib/amgcl.cpp
+                env2 = {}
+                for i, a in enumerate(args):
+                    if i < len(g.params):
+                        env2[g.params[i]] = T(a)
+                sub_eff, ret = self.block(g, g.body.get('s', []), env2, depth + 1)
+                eff.extend(sub_eff)
+                return ret if ret is not None else ('void',)
+            if e.get('obj') is not None:
+                obj = T(e['obj'])
+                if obj[0] in ('cast', 'new'):      # member call through a pointer
+                    obj = ('deref', obj)
+                cls = '::'.join(name.split('::')[:-1])
+                return ('mcall', e.get('m') or short, cls, obj) + tuple(T(a) for a in args)
+            return ('call', name) + tuple(T(a) for a in args)
+        return ('unknown', show(e)[:60])
+
+    def block(self, f, stmts, env, depth=0):
+        """-> (effects, return term or None)"""
+        eff = []
+        for si, s in enumerate(stmts):
+            k = s['k']
+            if k == 'block':
+                e2, r2 = self.block(f, s.get('s', []) + stmts[si + 1:], env, depth)
+                return eff + e2, r2
+            if k == 'decl':
+                for v in s['v']:
+                    if v.get('init') is not None:
+                        env[v['d']] = self.term(f, v['init'], env, eff, depth)
+                    else:
+                        env[v['d']] = ('var', v.get('n', '?'))
+                continue
+            if k == 'ret':
+                return eff, (self.term(f, s['e'], env, eff, depth) if s.get('e') is not None else ('void',))
+            if k == 'if':
+                c = self.term(f, s['c'], env, eff, depth)
+                rest = stmts[si + 1:]
+                t_st = [s['t']] if s.get('t') is not None else []
+                e_st = [s['e']] if s.get('e') is not None else []
+                e1, r1 = self.block(f, t_st + rest, dict(env), depth)
+                e2, r2 = self.block(f, e_st + rest, dict(env), depth)
+                if e1 == e2 and r1 == r2:
+                    return eff + e1, r1
+                eff.append(('ite', c, tuple(e1), tuple(e2)))
+                if r1 is None and r2 is None:
+                    return eff, None
+                return eff, ('ite', c, r1, r2)
+            if k in ('for', 'while', 'do', 'rfor', 'try', 'switch'):
+                eff.append(('stmt', k, f.where(s)))
+                continue
+            if k in ('null', 'empty'):
+                continue
+            t = self.term(f, s, env, eff, depth)
+            if t != ('void',):
+                eff.append(t)
+        return eff, None
+
+    def run(self, f):
+        self.events = []
+        eff, ret = self.block(f, f.body.get('s', []), {}, 0)
+        return eff, ret, list(self.events)
+
+
+def subterms(t):
+    if isinstance(t, tuple):
+        yield t
+        for x in t:
+            for y in subterms(x):
+                yield y
+    elif isinstance(t, list):
+        for x in t:
+            for y in subterms(x):
+                yield y
+
+
+def tshow(t, lim=140):
+    def s(t):
+        if not isinstance(t, tuple):
+            return str(t)
+        h = t[0]
+        if h == 'param' or h == 'var':
+            return t[1]
+        if h == 'lit':
+            return str(t[1])
+        if h == '+':
+            return ' + '.join(s(x) for x in t[1:])
+        if h == 'idx':
+            return '%s[%s]' % (s(t[1]), s(t[2]))
+        if h == 'range':
+            return '[%s, %s)' % (s(t[1]), s(t[2]))
+        if h == 'shift1':
+            return 'shift1(%s)' % s(t[1])
+        if h == 'tuple':
+            return '(%s)' % ', '.join(s(x) for x in t[1:])
+        if h == 'cast':
+            return '(%s*)%s' % (t[1] if len(str(t[1])) < 12 else '..', s(t[2]))
+        if h == 'deref':
+            return '*' + s(t[1])
+        if h == 'new':
+            return 'new %s(%s)' % (t[1] if len(str(t[1])) < 12 else '..', ', '.join(s(x) for x in t[2:]))
+        if h == 'mcall':
+            return '%s.%s(%s)' % (s(t[3]), t[1], ', '.join(s(x) for x in t[4:]))
+        if h == 'call':
+            return '%s(%s)' % (t[1].split('::')[-1], ', '.join(s(x) for x in t[2:]))
+        return '%s(%s)' % (h, ', '.join(s(x) for x in t[1:]))
+    r = s(t)
+    return r if len(r) <= lim else r[:lim] + '..'
+
+
+def unshift(t):
+    if isinstance(t, tuple):
+        if t and t[0] == 'shift1':
+            return unshift(t[1])
+        return tuple(unshift(x) for x in t)
+    if isinstance(t, list):
+        return [unshift(x) for x in t]
+    return t
+
+
+def consumers(eff, ret):
+    """the terms handed to C++ objects: constructions and member calls on handle objects"""
+    out = []
+    for t in subterms([eff, ret]):
+        if t and t[0] == 'new':
+            out.append(t)
+        elif t and t[0] == 'mcall' and any(x and x[0] == 'cast' for x in subterms(t[3])):
+            out.append(t)
+    # drop terms that are sub-terms of an already collected term (size() inside a range etc. stay: they are part of the argument)
+    return sorted(set(out), key=repr)
+
+
+def handle_param(t):
+    """the handle parameter a cast term is applied to"""
+    for x in subterms(t):
+        if x and x[0] == 'param':
+            return x[1]
+    return None
+
+
+# ------------------------------------------------------------------ rules
+def rule_A(ck, u, fs, R):
+    ck.rule('A.handle-typestate', 'every cast of a handle, every new and every delete reached from a C API function (helpers of lib/amgcl.cpp inlined) uses the C++ type of the function\'s '
+                                  'family; prm is always cast to Params; create allocates, destroy deletes the cast handle', 17)
     for name, f in sorted(fs.items()):
         fam = [v for k, v in FAMILIES.items() if name.startswith(k)]
         if not fam:
             continue
         fam = fam[0]
+        eff, ret, events = R[name]
         dets = []
-        n_ops = 0
-        for n in f.nodes.values():
-            if n['k'] == 'cast' and n.get('ck') == 'static' and 'ct' in n:
-                t = u.type(n['ct'])
-                src = unwrap(n['e'])
-                if t.startswith('void'):
-                    continue
-                # which handle parameter is cast?
-                pname = src['n'] if src['k'] == 'ref' else None
+        for kind, kd, op, where in events:
+            if kind == 'cast':
+                pname = handle_param(op)
                 if pname is None:
                     continue
-                n_ops += 1
                 want = 'Params' if pname == 'prm' else fam
-                got = kind_of(u, t)
-                if got != want:
-                    dets.append('handle `%s` is cast to %s at %s (expected %s)' % (pname, got or t[:50], f.where(n), want))
-            elif n['k'] == 'new' and 'ct' in n:
-                n_ops += 1
-                got = kind_of(u, u.type(n['ct']))
-                if got != fam:
-                    dets.append('creates a %s at %s (expected %s)' % (got or u.type(n['ct'])[:50], f.where(n), fam))
-            elif n['k'] == 'delete' and 'ct' in n:
-                n_ops += 1
-                got = kind_of(u, u.type(n['ct']))
-                if got != fam:
-                    dets.append('deletes a %s at %s (expected %s)' % (got or u.type(n['ct'])[:50], f.where(n), fam))
+                if kd != want:
+                    dets.append('handle `%s` is cast to %s at %s (expected %s)' % (pname, str(kd)[:50], where, want))
+            elif kind == 'new' and kd != fam:
+                dets.append('creates a %s at %s (expected %s)' % (str(kd)[:50], where, fam))
+            elif kind == 'delete':
+                if kd != fam:
+                    dets.append('deletes a %s at %s (expected %s)' % (str(kd)[:50], where, fam))
+                hp = name.split('_')[1] == 'params' and 'prm' or 'handle'
+                if not (op and op[0] == 'cast' and op[2] == ('param', hp)):
+                    dets.append('deletes `%s`, not the cast handle, at %s' % (tshow(op), where))
         if name.endswith('_create') or name.endswith('_create_f'):
-            if not any(n['k'] == 'new' for n in f.nodes.values()):
+            if not any(e[0] == 'new' for e in events):
                 dets.append('create does not allocate the object')
-        if name.endswith('_destroy') and not any(n['k'] == 'delete' for n in f.nodes.values()):
+            elif not any(t and t[0] == 'new' for t in subterms(ret)):
+                dets.append('create does not return the object it allocates')
+        if name.endswith('_destroy') and not any(e[0] == 'delete' for e in events):
             dets.append('destroy does not delete the object')
-        ck.ob('A.handle-typestate', name, f.where(), not dets, '; '.join(dets[:3]), trivial=(n_ops == 0))
+        ck.ob('A.handle-typestate', name, f.where(), not dets, '; '.join(dets[:3]), trivial=(not events))
 
 
-def transform_locals(f):
-    """{local decl: (wrapped parameter index, lambda ok)} for  auto p = boost::make_transform_iterator(P, [](int i){ return i - 1; })"""
-    out = {}
-    for n in f.nodes.values():
-        if n['k'] != 'decl':
-            continue
-        for v in n['v']:
-            init = unwrap(v.get('init')) if v.get('init') is not None else None
-            if init is not None and init['k'] == 'call' and (init.get('f') or '').endswith('make_transform_iterator') and len(init.get('a', [])) == 2:
-                src = unwrap(init['a'][0])
-                lam = None
-                for x in walk(init['a'][1]):
-                    if x['k'] == 'lambda':
-                        lam = x
-                ok = False
-                if lam is not None:
-                    rets = [r for r in walk(lam['b']) if r['k'] == 'ret']
-                    if len(rets) == 1:
-                        e = unwrap(rets[0]['e'])
-                        ok = e['k'] == 'bin' and e['op'] == '-' and unwrap(e['x'])['k'] == 'ref' and unwrap(e['y'])['k'] == 'lit' and unwrap(e['y'])['v'] == '1'
-                if src['k'] == 'ref' and f.param_index(src['d']) is not None:
-                    out[v['d']] = (f.param_index(src['d']), ok, n)
-    return out
+def crs_tuple_ok(t, n_term, ptr, col, val, shifted):
+    """t = (n, [P, P + n + 1), [C, C + ptr[n]), [V, V + ptr[n])) with P, C the (shifted) row-pointer / column arrays"""
+    if not (t and t[0] == 'tuple' and len(t) == 5):
+        return 'the matrix is not a 4-tuple (n, ptr range, col range, val range)'
+    P = ('shift1', ('param', ptr)) if shifted else ('param', ptr)
+    C = ('shift1', ('param', col)) if shifted else ('param', col)
+    V = ('param', val)
+    nnz = ('idx', ('param', ptr), n_term)
+    ev = Ev.add
+    want = ('tuple', n_term,
+            ('range', P, ev(None, ev(None, P, n_term), ('lit', '1'))),
+            ('range', C, ev(None, C, nnz)),
+            ('range', V, ev(None, V, nnz)))
+    if t == want:
+        return None
+    for i, role in ((1, 'size'), (2, 'row pointer range'), (3, 'column range'), (4, 'value range')):
+        if t[i] != want[i]:
+            return 'the %s of the matrix tuple is `%s`, expected `%s`' % (role, tshow(t[i], 90), tshow(want[i], 90))
+    return 'matrix tuple differs'
 
 
-def norm_with(f, node, subst, drop):
-    """normalised tree of node with local transform iterators replaced by the parameter they wrap"""
-    pmap = {}
-
-    def norm(n):
-        if n is None:
-            return None
-        if isinstance(n, list):
-            return [norm(x) for x in n if not (isinstance(x, dict) and x.get('i') in drop)]
-        if not isinstance(n, dict):
-            return n
-        if n.get('k') == 'ref' and n.get('d') in subst:
-            return {'k': 'ref', 'd': 'p%d' % subst[n['d']]}
-        out = {}
-        for k, v in n.items():
-            if k in ('i', 'l', 'lf', 'fd', 'mr', 'cm', 't', 'ct', 'rt'):
-                continue
-            if k == 'd' and isinstance(v, int):
-                pi = f.param_index(v)
-                if pi is not None:
-                    out[k] = 'p%d' % pi
-                else:
-                    if v not in pmap:
-                        pmap[v] = 'v%d' % len(pmap)
-                    out[k] = pmap[v]
-                continue
-            if k == 'n' and n.get('k') == 'ref':
-                continue
-            if k == 'f' and n.get('k') in ('bin', 'un', 'idx'):
-                continue   # built-in vs overloaded operator (pointer vs transform iterator): the operator itself is compared
-            if k in ('f',) and n.get('k') in ('call', 'ctor'):
-                # callee names differ only by template arguments (iterator types): keep the unqualified name
-                out[k] = v.split('::')[-1] if isinstance(v, str) else v
-                continue
-            out[k] = norm(v)
-        return out
-    return norm(node)
-
-
-def rule_B(ck, u, fs):
-    ck.rule('B.one-based-siblings', 'each _f entry point equals its 0-based sibling except that exactly the row-pointer and column arrays are wrapped in a transform iterator i -> i - 1', 4)
+def rule_B(ck, u, fs, R):
+    ck.rule('B.one-based-siblings', 'each _f entry point hands the C++ object the same terms as its 0-based sibling except that exactly the row-pointer and the column arrays are wrapped '
+                                    'in a transform iterator i -> i - 1 (val, rhs, x, n untouched); 0-based entry points shift nothing', 4)
     for a, b in PAIRS:
         if a not in fs or b not in fs:
             ck.ob('B.one-based-siblings', b, 'lib/amgcl.cpp', False, 'entry point missing')
             continue
         fa, fb = fs[a], fs[b]
-        tl = transform_locals(fb)
+        ea, ra, _ = R[a]
+        eb, rb, _ = R[b]
         dets = []
-        pa = [fa.decl(d)['n'] for d in fa.params]
-        pb = [fb.decl(d)['n'] for d in fb.params]
-        wrapped = sorted(pb[v[0]] for v in tl.values())
-        want = sorted(n for n in pb if n.endswith('ptr') or n.endswith('col'))
-        if wrapped != want:
-            dets.append('arrays shifted by one: %s (expected exactly %s)' % (wrapped, want))
-        if not all(v[1] for v in tl.values()):
+        ca, cb = consumers(ea, ra), consumers(eb, rb)
+        if any(t[0] in ('shift1', 'xform') for t in subterms(ca)):
+            ck.ob('B.one-based-siblings', a, fa.where(), False, 'the 0-based entry point shifts indices')
+        else:
+            ck.ob('B.one-based-siblings', a, fa.where(), True)
+        if any(t[0] == 'xform' for t in subterms(cb)):
             dets.append('a transform iterator does not subtract exactly 1')
-        if tl:
-            pass
-        # compare the tuples handed to the C++ object
-        def tuples(f, subst, drop):
-            out = []
-            for c in f.calls('std::make_tuple'):
-                if len(c.get('a', [])) == 4:
-                    out.append(json.dumps(norm_with(f, c, subst, drop), sort_keys=True))
-            return out
-        subst = {d: v[0] for d, v in tl.items()}
-        drop = {v[2]['i'] for v in tl.values()}
-        ta, tb = tuples(fa, {}, set()), tuples(fb, subst, drop)
-        if not ta or ta != tb:
-            dets.append('after removing the index shift the CRS tuple differs from the one built by %s' % a)
-        # the shift must actually be used: in the tuple, the row-pointer and column ranges are built from the shifted iterators only
-        for c in fb.calls('std::make_tuple'):
-            if len(c.get('a', [])) != 4:
-                continue
-            for pos, role in ((1, 'ptr'), (2, 'col')):
-                used = {x['d'] for x in walk(c['a'][pos]) if x['k'] == 'ref'}
-                rng = unwrap(c['a'][pos])
-                begin_end = rng.get('a', []) if rng['k'] == 'call' else []
-                raw = [x for y in begin_end for x in walk(y) if x['k'] == 'ref' and fb.param_index(x['d']) is not None and pb[fb.param_index(x['d'])].endswith(role)
-                       and not any(p_['k'] == 'idx' for p_ in fb.ancestors(x))]
-                if not any(d in tl and pb[tl[d][0]].endswith(role) for d in used) or raw:
-                    dets.append('the %s range of the 1-based entry point is built from the unshifted array' % role)
-            usedv = {x['d'] for x in walk(c['a'][3]) if x['k'] == 'ref'}
-            if any(d in tl for d in usedv):
-                dets.append('the value range is shifted')
-        # the calls that consume the tuple / the handles: new T(A, prm) or (*slv)(tuple, rhs, x)
-        def consumers(f, subst, drop):
-            out = []
-            for n in f.nodes.values():
-                if n['k'] == 'new':
-                    out.append(json.dumps(norm_with(f, n.get('init'), subst, drop), sort_keys=True))
-                elif n['k'] == 'call' and n.get('op') == '()' and len(n.get('a', [])) >= 2:
-                    out.append(json.dumps([norm_with(f, x, subst, drop) for x in n['a']], sort_keys=True))
-            return sorted(out)
-        if consumers(fa, {}, set()) != consumers(fb, subst, drop):
-            dets.append('the C++ object is constructed / called with different arguments than in %s' % a)
-        ck.ob('B.one-based-siblings', b, fb.where(), not dets, '; '.join(dets[:3]))
-    # 0-based functions must not shift anything
-    for a, b in PAIRS:
-        if a in fs:
-            tl = transform_locals(fs[a])
-            ck.ob('B.one-based-siblings', a, fs[a].where(), not tl, '' if not tl else 'the 0-based entry point shifts indices')
-    # amgcl_solver_solve_f delegates
-    if 'amgcl_solver_solve_f' in fs:
-        f = fs['amgcl_solver_solve_f']
-        calls = [c for c in f.calls('amgcl_solver_solve')]
-        ok = len(calls) == 1 and [unwrap(x).get('d') for x in calls[0]['a']] == f.params[:3]
-        ck.ob('B.one-based-siblings', 'amgcl_solver_solve_f', f.where(), ok, '' if ok else 'does not delegate to amgcl_solver_solve(handle, rhs, x)')
+        pb = [fb.decl(d)['n'] for d in fb.params]
+        shifted = sorted({t[1][1] for t in subterms(cb) if t[0] == 'shift1' and t[1][0] == 'param'})
+        # roles from the matrix tuple of the 0-based sibling
+        tups = [t for t in subterms(ca) if t[0] == 'tuple' and len(t) == 5]
+        want = []
+        if tups:
+            for pos in (2, 3):
+                rng = tups[0][pos]
+                if rng[0] == 'range' and rng[1][0] == 'param':
+                    want.append(rng[1][1])
+        if not tups or len(want) != 2:
+            ck.brk('B.one-based-siblings: cannot find the CRS tuple (n, [ptr..), [col..), [val..)) handed to the C++ object in %s' % a)
+            continue
+        if shifted != sorted(want):
+            dets.append('arrays shifted by one: %s (expected exactly %s)' % (shifted, sorted(want)))
+        # every iterator built on ptr / col must be the shifted one (raw uses are allowed only as subscripted values, e.g. ptr[n])
+        for t in subterms(cb):
+            if t[0] == 'range':
+                for side in (t[1], t[2]):
+                    base = side[1] if side[0] == '+' else side
+                    if base[0] == 'param' and base[1] in want:
+                        dets.append('the range `%s` of the 1-based entry point is built from the unshifted array' % tshow(t, 80))
+        if unshift(cb) != ca:
+            d1 = [t for t in unshift(cb) if t not in ca]
+            dets.append('after removing the index shift the C++ object is constructed / called with `%s`, %s with `%s`' % (
+                tshow(d1[0], 110) if d1 else '(nothing)', a, tshow(([t for t in ca if t not in unshift(cb)] or ca or [('none',)])[0], 110)))
+        ck.ob('B.one-based-siblings', b, fb.where(), not dets, '; '.join(dict.fromkeys(dets)))
+    # amgcl_solver_solve_f must come to the same call as amgcl_solver_solve
+    if 'amgcl_solver_solve_f' in fs and 'amgcl_solver_solve' in fs:
+        ea, ra, _ = R['amgcl_solver_solve']
+        eb, rb, _ = R['amgcl_solver_solve_f']
+        ok = consumers(ea, ra) == consumers(eb, rb) and bool(consumers(ea, ra))
+        ck.ob('B.one-based-siblings', 'amgcl_solver_solve_f', fs['amgcl_solver_solve_f'].where(), ok, '' if ok else 'does not come to the same call of the solver as amgcl_solver_solve(handle, rhs, x)')
 
 
-def rule_C(ck, u, fs):
-    ck.rule('C.runtime-types', 'AMG / Solver are the types of the C++ run-time interface; prm (when non-null) is passed to the constructor unchanged; typed setters forward name and value to ptree::put', 7)
-    seen = {}
-    for name, f in fs.items():
-        for n in f.nodes.values():
-            if n['k'] == 'new' and 'ct' in n:
-                k = kind_of(u, u.type(n['ct']))
-                seen.setdefault(name, []).append((k, u.type(n['ct']), n))
+def rule_C(ck, u, fs, R):
+    ck.rule('C.runtime-types', 'AMG / Solver are the types of the C++ run-time interface; the object is constructed from the CRS tuple over the caller\'s arrays, with *static_cast<Params*>(prm) '
+                               'exactly when prm is non-null; typed setters forward name and value to ptree::put', 7)
     for name in ('amgcl_precond_create', 'amgcl_precond_create_f', 'amgcl_solver_create', 'amgcl_solver_create_f'):
         if name not in fs:
             continue
         f = fs[name]
+        eff, ret, events = R[name]
         want = 'AMG' if 'precond' in name else 'Solver'
-        news = seen.get(name, [])
         dets = []
-        if not news or any(k != want for k, t, n in news):
-            dets.append('constructs %s' % ([t[:60] for k, t, n in news],))
-        # new T(A, *static_cast<Params*>(prm)) under if (prm); new T(A) otherwise
-        with_prm = [n for k, t, n in news if any(x['k'] == 'ref' and x['n'] == 'prm' for x in walk(n.get('init') or {'k': 'x', 'i': -1}))]
-        without = [n for k, t, n in news if n not in with_prm]
-        if len(with_prm) != 1 or len(without) != 1:
-            dets.append('expected one construction with prm and one without')
+        pn = [f.decl(d)['n'] for d in f.params]
+        news = [t for t in subterms([eff, ret]) if t and t[0] == 'new']
+        if not news or any(t[1] != want for t in news):
+            dets.append('constructs %s' % ([str(t[1])[:60] for t in news],))
+        if not (ret and ret[0] == 'ite' and ret[1] == ('param', pn[4])):
+            dets.append('the choice between construction with and without parameters is not `if (%s)`' % pn[4])
         else:
-            guard = [show(a['c']) for a in f.ancestors(with_prm[0]) if a['k'] == 'if']
-            if guard != ['prm']:
-                dets.append('parameters are used under guard %s' % guard)
-            init = with_prm[0].get('init')
-            args = init.get('a', []) if init is not None else []
-            derefs = [x for x in walk(args[1]) if x['k'] == 'un' and x['op'] == '*' and x['e']['k'] == 'cast' and x['e'].get('ck') == 'static'
-                      and unwrap(x['e'])['k'] == 'ref' and unwrap(x['e'])['n'] == 'prm'] if len(args) >= 2 else []
-            others = [x for x in walk(args[1]) if x['k'] in ('bin', 'call') and not (x['k'] == 'call' and x.get('conv'))] if len(args) >= 2 else []
-            if not derefs or others:
-                dets.append('prm is not passed as *static_cast<Params*>(prm) unchanged')
+            w, wo = ret[2], ret[3]
+            if not (w and w[0] == 'new' and len(w) == 4 and w[3] == ('deref', ('cast', 'Params', ('param', pn[4])))):
+                dets.append('with parameters the object is constructed as `%s`: prm is not passed as *static_cast<Params*>(prm) unchanged' % tshow(w, 100))
+            if not (wo and wo[0] == 'new' and len(wo) == 3):
+                dets.append('without parameters the object is constructed as `%s`' % tshow(wo, 100))
+            if w and wo and len(w) > 2 and len(wo) > 2 and w[2] != wo[2]:
+                dets.append('the two constructions use different matrices')
+            if w and len(w) > 2:
+                bad = crs_tuple_ok(w[2], ('param', pn[0]), pn[1], pn[2], pn[3], name.endswith('_f'))
+                if bad:
+                    dets.append(bad)
         ck.ob('C.runtime-types', name, f.where(), not dets, '; '.join(dets[:2]))
     for name in ('amgcl_params_seti', 'amgcl_params_setf', 'amgcl_params_sets'):
         if name not in fs:
             continue
         f = fs[name]
-        puts = [c for c in f.calls() if c.get('m') == 'put']
-        ok = False
-        if len(puts) == 1 and len(puts[0]['a']) >= 2:
-            refs0 = [x['d'] for x in walk(puts[0]['a'][0]) if x['k'] == 'ref']
-            refs1 = [x['d'] for x in walk(puts[0]['a'][1]) if x['k'] == 'ref']
-            ok = refs0 == [f.params[1]] and refs1 == [f.params[2]] and not any(x['k'] == 'bin' for x in walk(puts[0]['a'][1]))
-        ck.ob('C.runtime-types', name, f.where(), ok, '' if ok else 'does not forward (name, value) to ptree::put unchanged')
+        eff, ret, events = R[name]
+        pn = [f.decl(d)['n'] for d in f.params]
+        want = ('mcall', 'put', None, ('deref', ('cast', 'Params', ('param', pn[0]))), ('param', pn[1]), ('param', pn[2]))
+        got = [t for t in eff if t and t[0] == 'mcall']
+        ok = len(eff) == 1 and len(got) == 1 and got[0][:2] == want[:2] and got[0][3:] == want[3:]
+        ck.ob('C.runtime-types', name, f.where(), ok, '' if ok else 'does not forward (name, value) to ptree::put unchanged: `%s`' % tshow(tuple(eff), 100))
+
+    ck.rule('C.forward', 'amgcl_precond_apply performs exactly amg.apply([rhs, rhs + n), [x, x + n)) and amgcl_solver_solve* exactly solver([A,] [rhs, rhs + n), [x, x + n)) on the cast handle, '
+                         'n being the size of that object; nothing else touches rhs or x', 4)
+    for name, (member, fam, with_matrix) in FORWARD.items():
+        if name not in fs:
+            continue
+        f = fs[name]
+        eff, ret, events = R[name]
+        pn = [f.decl(d)['n'] for d in f.params]
+        obj = ('deref', ('cast', fam, ('param', pn[0])))
+        calls = [t for t in subterms([eff, ret]) if t and t[0] == 'mcall' and t[1] == member and any(x == obj for x in subterms(t[3]))]
+        dets = []
+        if len(set(calls)) != 1:
+            others = sorted({t[1] for t in subterms([eff, ret]) if t and t[0] == 'mcall' and any(x == obj for x in subterms(t[3]))})
+            dets.append('expected exactly one call of %s::%s on the handle, found %d (members called on it: %s)' % (fam, member, len(set(calls)), others))
+        else:
+            c = calls[0]
+            args = c[4:]
+            rhs_n, x_n = (pn[4], pn[5]) if with_matrix else (pn[1], pn[2])
+            # n: size of the object
+            sizes = {t for t in subterms(c) if t and ((t[0] == 'mcall' and t[1] in ('size',) and any(x == obj for x in subterms(t[3])))
+                                                      or (t[0] == 'call' and t[1].endswith('backend::rows') and any(x == obj for x in subterms(t))))}
+            if len(sizes) != 1:
+                dets.append('the length of the ranges is not the size of the object (%s)' % ([tshow(s_) for s_ in sizes] or 'none'))
+            else:
+                n_term = next(iter(sizes))
+                want_rhs = ('range', ('param', rhs_n), Ev.add(None, ('param', rhs_n), n_term))
+                want_x = ('range', ('param', x_n), Ev.add(None, ('param', x_n), n_term))
+                exp = []
+                if with_matrix:
+                    bad = crs_tuple_ok(args[0] if args else None, n_term, pn[1], pn[2], pn[3], name.endswith('_f'))
+                    if bad:
+                        dets.append(bad)
+                    exp_args = args[1:]
+                else:
+                    exp_args = args
+                if tuple(exp_args) != (want_rhs, want_x):
+                    dets.append('the call is %s(%s), expected (%s, %s)' % (member, ', '.join(tshow(a, 60) for a in exp_args), tshow(want_rhs, 60), tshow(want_x, 60)))
+            # nothing else may touch x / rhs: any effect that mentions the output array outside that call
+            xname = pn[5] if with_matrix else pn[2]
+            for t in eff:
+                for s_ in subterms(t):
+                    if s_ and s_[0] in ('mcall', 'call') and s_ != c and not any(y == c for y in subterms(s_)) and any(y == ('param', xname) for y in subterms(s_)) \
+                            and not any(s_ == y for y in subterms(c)):
+                        dets.append('`%s` also touches the output array' % tshow(s_, 80))
+        ck.ob('C.forward', name, f.where(), not dets, '; '.join(dict.fromkeys(dets)))
 
 
 def main(tier):
-    ck = Check('C20', tier, 'C20 (clauses): handle typestate of the C API, 0-/1-based sibling agreement, run-time interface types.')
+    ck = Check('C20', tier, 'C20 (clauses): handle typestate of the C API, 0-/1-based sibling agreement, run-time interface types, forwarding to the C++ members.')
     T = os.path.join(ir.VERIF, 'tus')
     specs = [dict(name='capi', src=os.path.join(T, 'capi.cpp'), extra=['-I' + os.path.join(ir.REPO, 'lib')])]
     units = ir.run_units(specs, 'C20')
     ck.add_units(units, specs)
     u = units['capi']
     fs = capi(u)
-    if len(fs) < 19:
-        ck.brk('only %d C API functions found in lib/amgcl.cpp (expected 19)' % len(fs))
-    rule_A(ck, u, fs)
-    rule_B(ck, u, fs)
-    rule_C(ck, u, fs)
+    api = {k: v for k, v in fs.items() if k.startswith('amgcl_')}
+    if len(api) < 19:
+        ck.brk('only %d C API functions found in lib/amgcl.cpp (expected 19)' % len(api))
+    ev = Ev(u, fs)
+    R = {name: ev.run(f) for name, f in api.items()}
+    rule_A(ck, u, api, R)
+    rule_B(ck, u, api, R)
+    rule_C(ck, u, api, R)
     ck.assumptions += ['bitwise equality of results with the C++ interface follows from identical types and arguments only together with determinism (C10 / C15)',
-                       'the iterator ranges built by the _f entry points end one element past the arrays (ptr[n] is nnz + 1 in 1-based storage); consumers never read the range ends (not decided)']
+                       'the iterator ranges built by the _f entry points end one element past the arrays (ptr[n] is nnz + 1 in 1-based storage); consumers never read the range ends (not decided)',
+                       'helpers are inlined only when they are defined in lib/amgcl.cpp; loops inside entry points are opaque (reported as a difference between siblings)']
     return ck.finish()
